@@ -1,60 +1,94 @@
 ---- MODULE JsonLdSer ----
-\* Transcription of jsonld/src/serializer/engine.rs (processing mode 1.1, use_rdf_type = false,
-\* no rdf_direction) for small datasets: which quads does the emitted JSON-LD denote?
+\* Transcription of the list handling of the JSON-LD serializer (jsonld/src/serializer/engine.rs; use_rdf_type = false,
+\* no rdf_direction): which quads does the emitted document denote?
+\*
+\* A quad is <<s, p, o, g>> over model values.  The document is abstracted to the set of quads it denotes, with ONE
+\* simplification that is made sound by an explicit side condition: an @list denotes the rdf:first / rdf:rest quads of
+\* its cells with their ORIGINAL labels, although the real document drops those labels.  Dropping a label is harmless
+\* exactly when the label occurs nowhere else (Anonymous below); the other differences with the real document are the
+\* rdf:type rdf:List of a compacted cell (not written: W3C algorithm, recorded deviation) and a crash (Crash).
 EXTENDS Naturals, Sequences, FiniteSets, TLC
-CONSTANTS B1, B2, A, NIL, P, FIRST, REST, DG, G1
-Bn == {B1, B2}
-Subjects == Bn \cup {A}
-Preds == {P, FIRST, REST}
-Objects == Bn \cup {A, NIL}
-Graphs == {DG, G1}
-Universe == Subjects \X Preds \X Objects \X Graphs
-\* slots = (graph, node) pairs that occur as subject or object (or, for graph names, in the default graph)
-Props(D, g, s) == {q \in D : q[4] = g /\ q[1] = s}                       \* the property map of slot (g, s)
-Keys(D, g, s) == {q[2] : q \in Props(D, g, s)}
+CONSTANTS Bn,        \* blank node labels
+          NIL, LIST, FIRST, REST, TYPE,
+          DG,        \* the default graph
+          Mode11,    \* processing mode 1.1 (lists of lists allowed)
+          Algo       \* "pinned" (commit 9f1ceaf) | "fixed"
+Fuel == 12
+Slots(D) == { <<q[4], q[1]>> : q \in D } \cup { <<DG, q[4]>> : q \in {x \in D : x[4] # DG} }          \* non-empty node maps
+Props(D, g, s) == {q \in D : q[4] = g /\ q[1] = s}
+\* keys of the node map of slot (g, s): rdf:type with an IRI object is "@type"; naming a graph adds "@graph"
+Keys(D, g, s) == {q[2] : q \in Props(D, g, s)} \cup (IF g = DG /\ \E q \in D : q[4] = s /\ s # DG THEN {"@graph"} ELSE {})
 Vals(D, g, s, p) == {q[3] : q \in {x \in Props(D, g, s) : x[2] = p}}
-\* unique_parent, keyed by blank-node LABEL: the only (graph, subject, predicate) through which it is an object
+\* unique_parent, keyed by LABEL: (graph, subject, predicate) of the only statement having it as object
 Parents(D, b) == { <<q[4], q[1], q[2]>> : q \in {x \in D : x[3] = b} }
-HasParentEntry(D, b) == Parents(D, b) # {}
-UniqueParent(D, b) == IF Cardinality(Parents(D, b)) = 1 THEN CHOOSE x \in Parents(D, b) : TRUE ELSE <<>>     \* <<>> = None
-\* list seeds: slots (g, s) with s blank and (s rest nil) in g
+Described(D, b) == Cardinality({x \in Slots(D) : x[2] = b})
 Seeds(D) == { <<q[4], q[1]>> : q \in {x \in D : x[1] \in Bn /\ x[2] = REST /\ x[3] = NIL} }
-IsListNode(D, g, s) == Keys(D, g, s) = {FIRST, REST} /\ Cardinality(Vals(D, g, s, FIRST)) = 1 /\ Cardinality(Vals(D, g, s, REST)) = 1
-\* mark_list_node from a slot; returns [panic, marked (set of labels)]
+\* is_list_node: exactly one rdf:first, exactly one rdf:rest (a node), possibly the type rdf:List, nothing else
+IsListNode(D, g, s) ==
+  /\ Keys(D, g, s) \in {{FIRST, REST}, {FIRST, REST, TYPE}}
+  /\ Cardinality(Vals(D, g, s, FIRST)) = 1 /\ Cardinality(Vals(D, g, s, REST)) = 1
+  /\ \A r \in Vals(D, g, s, REST) : r \in Bn \cup {NIL}
+  /\ (TYPE \in Keys(D, g, s) => Vals(D, g, s, TYPE) = {LIST})
+\* mark_list_node: [crash, marked: function label -> parent slot (as a set of pairs)]
 RECURSIVE Mark(_, _, _, _)
 Mark(D, g, s, fuel) ==
-  IF fuel = 0 THEN [panic |-> FALSE, marked |-> {}]
-  ELSE IF ~HasParentEntry(D, s) THEN [panic |-> TRUE, marked |-> {}]          \* self.unique_parent[s_id] on a missing key
-  ELSE LET up == UniqueParent(D, s) IN
-       IF up = <<>> THEN [panic |-> FALSE, marked |-> {}]
-       ELSE IF up[1] # g THEN [panic |-> FALSE, marked |-> {}]
-       ELSE IF ~IsListNode(D, g, s) THEN [panic |-> FALSE, marked |-> {}]
+  IF fuel = 0 THEN [crash |-> TRUE, marked |-> {}]
+  ELSE IF Algo = "fixed" /\ Described(D, s) # 1 THEN [crash |-> FALSE, marked |-> {}]
+  ELSE IF Parents(D, s) = {} THEN [crash |-> Algo = "pinned", marked |-> {}]                  \* pinned: unique_parent[s_id] panics
+  ELSE IF Cardinality(Parents(D, s)) # 1 THEN [crash |-> FALSE, marked |-> {}]
+  ELSE LET up == CHOOSE x \in Parents(D, s) : TRUE IN
+       IF ~Mode11 /\ up[3] = FIRST THEN [crash |-> FALSE, marked |-> {}]
+       ELSE IF up[1] # g \/ ~IsListNode(D, g, s) THEN [crash |-> FALSE, marked |-> {}]
        ELSE IF up[2] \in Bn /\ up[3] = REST
-            THEN LET r == Mark(D, up[1], up[2], fuel - 1) IN [panic |-> r.panic, marked |-> {s} \cup r.marked]
-            ELSE [panic |-> FALSE, marked |-> {s}]
-MarkAll(D) == LET rs == { Mark(D, x[1], x[2], 6) : x \in Seeds(D) } IN
-              [panic |-> \E r \in rs : r.panic, marked |-> UNION {r.marked : r \in rs}]
-\* quads denoted by an @list for the cell slot (g, c): the cells are re-emitted with their original labels
+            THEN LET r == Mark(D, up[1], up[2], fuel - 1) IN [crash |-> r.crash, marked |-> {<<s, <<up[1], up[2]>>>>} \cup r.marked]
+            ELSE [crash |-> FALSE, marked |-> {<<s, <<up[1], up[2]>>>>}]
+MarkAll(D) == LET rs == { Mark(D, x[1], x[2], Fuel) : x \in Seeds(D) } IN
+              [crash |-> \E r \in rs : r.crash, marked |-> UNION {r.marked : r \in rs}]
+ParentOf(m, b) == (CHOOSE x \in m : x[1] = b)[2][2]
+Labels(m) == {x[1] : x \in m}
+\* list nodes are only rendered through their parent: those on a loop of parents would never be rendered
+RECURSIVE Reaches(_, _, _, _)
+Reaches(m, from, to, fuel) == fuel > 0 /\ from \in Labels(m) /\ (ParentOf(m, from) = to \/ Reaches(m, ParentOf(m, from), to, fuel - 1))
+OnLoop(m, b) == Reaches(m, b, b, Fuel)
+\* "pinned": nothing is unmarked.  "head1" (first repair, 052b0ad): ONE node of each loop is unmarked - which one depends on
+\* the iteration order of a hash map, so every choice is possible.  "fixed": every node of a loop is unmarked.
+SameLoop(m, a, b) == a = b \/ (Reaches(m, a, b, Fuel) /\ Reaches(m, b, a, Fuel))
+LoopNodes(m) == {b \in Labels(m) : OnLoop(m, b)}
+UnmarkChoices(m) == CASE Algo = "pinned" -> {{}}
+                      [] Algo = "head1" -> {U \in SUBSET LoopNodes(m) : \A b \in LoopNodes(m) : Cardinality({u \in U : SameLoop(m, u, b)}) = 1}
+                      [] OTHER -> {LoopNodes(m)}
+PossibleListNodes(D) == LET m == MarkAll(D).marked IN { Labels(m) \ U : U \in UnmarkChoices(m) }
+\* quads denoted by the @list starting at cell (g, c) - populate_list follows rdf:rest whatever the next cell is
 RECURSIVE ListQuads(_, _, _, _, _)
-ListQuads(D, marked, g, c, fuel) ==
-  IF fuel = 0 THEN [panic |-> FALSE, quads |-> {}]
-  ELSE IF Vals(D, g, c, FIRST) = {} \/ Vals(D, g, c, REST) = {} THEN [panic |-> TRUE, quads |-> {}]      \* map[RDF_FIRST][0] on a missing key
+ValueQuads(D, ln, g, o, fuel) == IF o \in ln THEN ListQuads(D, ln, g, o, fuel) ELSE [crash |-> FALSE, quads |-> {}]
+ListQuads(D, ln, g, c, fuel) ==
+  IF fuel = 0 THEN [crash |-> TRUE, quads |-> {}]                                                      \* endless recursion
+  ELSE IF Vals(D, g, c, FIRST) = {} \/ Vals(D, g, c, REST) = {} THEN [crash |-> TRUE, quads |-> {}]   \* map[RDF_FIRST][0] on a missing key
   ELSE LET f == CHOOSE x \in Vals(D, g, c, FIRST) : TRUE
            r == CHOOSE x \in Vals(D, g, c, REST) : TRUE
            here == { <<c, FIRST, f, g>>, <<c, REST, r, g>> }
-           inner == IF f \in marked THEN ListQuads(D, marked, g, f, fuel - 1) ELSE [panic |-> FALSE, quads |-> {}]
-           next == IF r # NIL /\ r \in Bn THEN ListQuads(D, marked, g, r, fuel - 1) ELSE [panic |-> FALSE, quads |-> {}]
-       IN [panic |-> inner.panic \/ next.panic, quads |-> here \cup inner.quads \cup next.quads]
-\* node object of slot (g, s): its own quads plus the lists hanging from it
-NodeQuads(D, marked, g, s) ==
+           inner == ValueQuads(D, ln, g, f, fuel - 1)
+           next == IF r \in Bn THEN ListQuads(D, ln, g, r, fuel - 1) ELSE [crash |-> FALSE, quads |-> {}]
+       IN [crash |-> inner.crash \/ next.crash, quads |-> here \cup inner.quads \cup next.quads]
+\* node object of slot (g, s): its own statements plus the lists hanging from them
+NodeQuads(D, ln, g, s) ==
   LET ps == Props(D, g, s)
-      lists == { ListQuads(D, marked, g, q[3], 6) : q \in {x \in ps : x[3] \in marked} }
-  IN [panic |-> \E l \in lists : l.panic, quads |-> ps \cup UNION {l.quads : l \in lists}]
-Emitted(D) ==
+      lists == { ValueQuads(D, ln, g, q[3], Fuel) : q \in ps }
+  IN [crash |-> \E l \in lists : l.crash, quads |-> ps \cup UNION {l.quads : l \in lists}]
+Emitted(D, ln) ==
   LET m == MarkAll(D)
-      slots == { <<q[4], q[1]>> : q \in D }
-      shown == { x \in slots : x[2] \notin m.marked }                         \* suppression is by LABEL, in every graph
-      nodes == { NodeQuads(D, m.marked, x[1], x[2]) : x \in shown }
-  IN [panic |-> m.panic \/ \E n \in nodes : n.panic, quads |-> UNION {n.quads : n \in nodes}]
-Correct(D) == LET e == Emitted(D) IN ~e.panic /\ e.quads = D
+      shown == { x \in Slots(D) : x[2] \notin ln }                         \* jsonify skips list nodes BY LABEL, in every graph
+      nodes == { NodeQuads(D, ln, x[1], x[2]) : x \in shown }
+  IN [crash |-> m.crash \/ \E n \in nodes : n.crash, quads |-> UNION {n.quads : n \in nodes}, ln |-> ln]
+\* the label of a list node disappears from the document: it must occur only as the subject of its cell and once as an object
+Anonymous(D, b) == /\ Cardinality({q \in D : q[3] = b}) = 1
+                   /\ \A q \in D : q[4] # b
+                   /\ Cardinality({q[4] : q \in {x \in D : x[1] = b}}) = 1
+\* the recorded deviation: the rdf:type rdf:List statement of a compacted cell is not written
+TypeOfListNode(D, ln) == {q \in D : q[1] \in ln /\ q[2] = TYPE /\ q[3] = LIST}
+CorrectWith(D, ln) == LET e == Emitted(D, ln) IN
+  /\ ~e.crash
+  /\ e.quads \cup TypeOfListNode(D, ln) = D
+  /\ \A b \in ln : Anonymous(D, b)
+Correct(D) == \A ln \in PossibleListNodes(D) : CorrectWith(D, ln)
 ====
